@@ -17,11 +17,15 @@ type seqCheck struct {
 	depthQ, depthT int
 	alphabet       []lx.Op
 	configs        [][]lx.LedgerSpec // one exploration per configuration
-	sigs           []string
-	check          func(ctx context.Context, s *lx.StepInfo, rep *lx.Report)
-	need           []string
-	rule           string
-	restart        bool
+	// cfgAlphabet / cfgDepth, when set, give a configuration its own alphabet and its own
+	// depth bound (given the tier's depth); nil: the check's alphabet and depth
+	cfgAlphabet func(cfg []lx.LedgerSpec) []lx.Op
+	cfgDepth    func(cfg []lx.LedgerSpec, depth int) int
+	sigs        []string
+	check       func(ctx context.Context, s *lx.StepInfo, rep *lx.Report)
+	need        []string
+	rule        string
+	restart     bool
 	// post, when set, runs once after the sequential exploration: cross-path oracles
 	// (what one path returned compared with what another path returned), their vacuity
 	// guards and their evidence fields
@@ -52,7 +56,14 @@ func registerSeq(sc seqCheck) {
 	depths:
 		for d := 1; d <= depth; d++ {
 			for _, cfg := range sc.configs {
-				e := &lx.SeqExplorer{Ledgers: cfg, Alphabet: sc.alphabet, Depth: d, OnlyDepth: d, Restart: sc.restart, Sigs: sc.sigs, Check: sc.check}
+				if sc.cfgDepth != nil && d > sc.cfgDepth(cfg, depth) {
+					continue
+				}
+				alphabet := sc.alphabet
+				if sc.cfgAlphabet != nil {
+					alphabet = sc.cfgAlphabet(cfg)
+				}
+				e := &lx.SeqExplorer{Ledgers: cfg, Alphabet: alphabet, Depth: d, OnlyDepth: d, Restart: sc.restart, Sigs: sc.sigs, Check: sc.check}
 				last = e
 				st, err := e.Run(context.Background(), r)
 				if err != nil {
@@ -227,7 +238,7 @@ func init() {
 	registerSeq(seqCheck{
 		id: "C05", quick: 110 * time.Second, thor: 15 * time.Minute, depthQ: 3, depthT: 4,
 		alphabet: append(coreAlphabet()[:11], tsAlphabet()[:2]...), restart: false,
-		sigs: []string{"pit:", "vol:value:pit", "vol:balance:pit", "vol:missing:pit", "vol:unexpected:pit", "vol:duplicate:pit", "vol:order:pit", "vol:value:window", "vol:missing:window", "vol:unexpected:window", "vol:balance:window", "agg:value:pit", "agg:missing:pit", "agg:unexpected:pit", "read:", "ref:"},
+		sigs:    []string{"pit:", "vol:value:pit", "vol:balance:pit", "vol:missing:pit", "vol:unexpected:pit", "vol:duplicate:pit", "vol:order:pit", "vol:value:window", "vol:missing:window", "vol:unexpected:window", "vol:balance:window", "agg:value:pit", "agg:missing:pit", "agg:unexpected:pit", "read:", "ref:"},
 		configs: [][]lx.LedgerSpec{{{Name: "l1"}, {Name: "twin", Bucket: "twinb"}}},
 		check: func(ctx context.Context, s *lx.StepInfo, rep *lx.Report) {
 			lx.CheckPIT(ctx, s.Ctrl, s.Ref, rep)
